@@ -57,6 +57,14 @@ def main():
     anchors = getattr(mod, "ANCHORS", [])
     if anchors:
         ctx.reach = Reach(anchors)
+    ctx.purity = None
+    pure = getattr(mod, "PURE", [])
+    if pure:
+        from vf.core import PurityMonitor
+        ctx.purity = PurityMonitor()
+        unresolved = ctx.purity.install(pure)
+        for u in unresolved:
+            ctx.note("purity_monitor_unresolved:" + u)
     import biotite
     jwrite(ev="ready", biotite=biotite.__file__, setup_s=round(time.time() - t0, 2))
 
@@ -66,8 +74,15 @@ def main():
         ctx.begin_case(stratum, index)
         jwrite(ev="before", stratum=stratum, i=index)
         status, reason = "held", None
+        if ctx.purity is not None:
+            ctx.purity.flush()
         try:
             fn()
+            if ctx.purity is not None:
+                ctx.oracles["arguments_untouched_hook"] = sum(ctx.purity.calls.values())
+                leaked = ctx.purity.flush()
+                if leaked:
+                    raise Violation("arguments_untouched_hook", "; ".join(leaked[:4]))
         except Violation as v:
             status = "violated"
             violations.append({
